@@ -34,6 +34,18 @@ func (v *escapeAnalysis) Visit(node ast.Node) (w ast.Visitor) {
 				return &escapingObjectCollector{v}
 			}
 		}
+	case *ast.SelectorExpr:
+		// Calling (or binding) a method with a pointer receiver on a variable takes
+		// the address of the variable implicitly.
+		if sel, ok := v.info.Selections[n]; ok && sel.Kind() == types.MethodVal {
+			if _, isIdent := n.X.(*ast.Ident); isIdent {
+				_, recvIsPtr := sel.Recv().Underlying().(*types.Pointer)
+				_, wantsPtr := sel.Obj().Type().(*types.Signature).Recv().Type().(*types.Pointer)
+				if wantsPtr && !recvIsPtr {
+					return &escapingObjectCollector{v}
+				}
+			}
+		}
 	case *ast.FuncLit:
 		v.bottomScopes[v.info.Scopes[n.Type]] = true
 		return &escapingObjectCollector{v}
